@@ -313,7 +313,7 @@ pub fn run(ctx: &Ctx) {
     let p = DocParams { ws: 2, max_depth: 5, max_items: 6, ..DocParams::default() };
     for (label, stress) in [("generated", false), ("skip-stress", true)] {
         let pc = p.clone();
-        ctx.search(&subs[0], label, ctx.n(600_000, 6_000_000), 900, &move |src: &mut Src| {
+        ctx.search(&subs[0], label, ctx.n(1_800_000, 14_400_000), 900, &move |src: &mut Src| {
             let doc = if stress { gen_skip_stress(src, &pc) } else { gens::gen_container_doc(src, &pc) };
             let doc = if doc.len() > 60_000 { b"[1,2]".to_vec() } else { doc };
             let rest = src.take(24);
@@ -321,7 +321,7 @@ pub fn run(ctx: &Ctx) {
         });
     }
     // wide arrays: indices beyond 64, alone and next to siblings congruent modulo 64
-    ctx.search(&subs[0], "wide-arrays", ctx.n(60_000, 600_000), 300, &|src: &mut Src| {
+    ctx.search(&subs[0], "wide-arrays", ctx.n(180_000, 1_440_000), 300, &|src: &mut Src| {
         let n = *src.pick(&[65usize, 66, 70, 100, 129, 130, 200]);
         let mut doc = if src.bool() { b"[".to_vec() } else { b"{\"a\":[".to_vec() };
         let obj = doc[0] == b'{';
@@ -341,7 +341,7 @@ pub fn run(ctx: &Ctx) {
         join_case(&doc, &rest)
     });
     let pc = DocParams { ws: 1, max_depth: 6, max_items: 5, ..DocParams::default() };
-    ctx.search(&subs[1], "schemas", ctx.n(800_000, 8_000_000), 900, &move |src: &mut Src| {
+    ctx.search(&subs[1], "schemas", ctx.n(2_400_000, 19_200_000), 900, &move |src: &mut Src| {
         // object-rooted documents
         let mut doc = b"{".to_vec();
         let n = 1 + src.below(5);
